@@ -20,11 +20,17 @@ Lemma fast_consts_ok :
 Proof. repeat split; reflexivity. Qed.
 
 (* ---------- what is assumed of thrift.Binary.Skip (property C02 / C03 prove it of Model/Skip.v) ---------- *)
+(* = C02P.bskip_exact *)
 Definition SK_exact_statement : Prop :=
-  forall t v rest, ThriftGrammar.wt t v = true -> (ThriftGrammar.ch v <= 63)%nat ->
+  forall t v rest, ThriftGrammar.wt t v = true -> (ThriftGrammar.ch v <= 63)%nat -> wf rest ->
     binary_skip (ThriftGrammar.enc v ++ rest) t = Ok (len (ThriftGrammar.enc v)).
-Definition SK_safe_statement : Prop := forall b t, safe (binary_skip b t).
-Definition SK_bounded_statement : Prop := forall b t n, binary_skip b t = Ok n -> n <= len b.
+(* = GrammarP.enc_wf : the encoding of a well-typed value consists of bytes *)
+Definition ENC_wf_statement : Prop :=
+  forall v t, ThriftGrammar.wt t v = true -> wf (ThriftGrammar.enc v).
+(* = SkipP.bskip_safe, SkipP.bskip_bounded *)
+Definition SK_safe_statement : Prop := forall b t, wf b -> t < 256 -> safe (binary_skip b t).
+Definition SK_bounded_statement : Prop :=
+  forall b t n, wf b -> t < 256 -> binary_skip b t = Ok n -> 1 <= n <= len b.
 
 Lemma wt_type t v : ThriftGrammar.wt t v = true -> 0 < t < 128.
 Proof.
@@ -51,17 +57,22 @@ Section Loop.
   Hypothesis disp_unknown : forall fid ftyp,
     in_signed 16 fid -> in_signed 8 ftyp -> in_schema sch fid ftyp = false -> disp fid ftyp = None.
 
-  (* a field the loop handles as the reference semantics says *)
-  Definition item_good (it : ritem) : Prop :=
+  (* a field the loop handles as the reference semantics says, when followed by [more] *)
+  Definition item_good (it : ritem) (more : bytes) : Prop :=
     match it with
     | Known id v => in_schema sch id (fty v) = true /\ fval_ok v = true
     | Unknown t id v =>
         0 < t < 128 /\ id < two16 /\ in_schema sch (i16 id) (i8 t) = false /\
-        forall rest, binary_skip (ThriftGrammar.enc v ++ rest) t = Ok (len (ThriftGrammar.enc v))
+        binary_skip (ThriftGrammar.enc v ++ more) t = Ok (len (ThriftGrammar.enc v))
+    end.
+  Fixpoint items_good (its : list ritem) (rest : bytes) : Prop :=
+    match its with
+    | [] => True
+    | it :: r => item_good it (enc_ritems r ++ rest) /\ items_good r rest
     end.
 
   Lemma loop_step fuel pre it more p :
-    item_good it ->
+    item_good it more ->
     read_loop lb ls disp (S fuel) (pre ++ enc_ritem it ++ more) (len pre) (Some p) =
     read_loop lb ls disp fuel ((pre ++ enc_ritem it) ++ more) (len (pre ++ enc_ritem it))
               (Some (match it with Known id v => apply p id v | Unknown _ _ _ => p end)).
@@ -95,7 +106,7 @@ Section Loop.
   Qed.
 
   Lemma loop_items its : forall fuel pre rest p,
-    Forall item_good its -> (length its < fuel)%nat ->
+    items_good its rest -> (length its < fuel)%nat ->
     read_loop lb ls disp fuel (pre ++ enc_ritems its ++ rest) (len pre) (Some p) =
     Ok (Some (apply_items apply p its), len pre + len (enc_ritems its)).
   Proof.
@@ -106,7 +117,7 @@ Section Loop.
       rewrite r_field_begin_stop. cbn [relabel bind]. change thrift_STOP with 0%Z. cbn [Z.eqb].
       cbn [enc]. change (len [0]) with 1. reflexivity.
     - destruct fuel as [|f]; [cbn [length] in Hf; lia|].
-      inversion HG as [|? ? G1 G2]; subst.
+      destruct HG as [G1 G2].
       assert (E : enc_ritems (it :: its) = enc_ritem it ++ enc_ritems its).
       { unfold enc_ritems. cbn [map concat]. now rewrite <- app_assoc. }
       rewrite E. rewrite <- app_assoc.
@@ -126,7 +137,7 @@ Section Loop.
   Qed.
 
   Lemma loop_whole its rest p :
-    Forall item_good its ->
+    items_good its rest ->
     read_loop lb ls disp (S (length (enc_ritems its ++ rest))) (enc_ritems its ++ rest) 0 (Some p) =
     Ok (Some (apply_items apply p its), len (enc_ritems its)).
   Proof.
@@ -137,16 +148,76 @@ Section Loop.
   Qed.
 End Loop.
 
-(* well-formed fields are good, given Skip's exactness *)
-Lemma ritem_ok_good sch (SK : SK_exact_statement) it :
-  ritem_ok sch it = true -> item_good sch it.
+(* well-formed fields followed by bytes are good, given Skip's exactness *)
+Lemma wf_app' a b : wf a -> wf b -> wf (a ++ b).
+Proof. intros Ha Hb. apply Forall_app. now split. Qed.
+
+Lemma wf_enc_string s : wfbb s = true -> wf (enc (IString s)).
+Proof. intros H. cbn [enc]. apply wf_app'; [apply be_wf|now apply wfbb_wf]. Qed.
+
+Lemma wf_enc_entries l :
+  forallb (fun kv => wfbb (fst kv) && wfbb (snd kv)) l = true -> wf (enc_entries l).
 Proof.
-  destruct it as [id v|t id v]; cbn [ritem_ok item_good]; intros H.
-  - apply andb_prop in H as [H1 H2]. now split.
+  unfold enc_entries. induction l as [|[k v] l IH]; cbn [forallb map concat fst snd]; intros H; [constructor|].
+  apply andb_prop in H as [H1 H2]. apply andb_prop in H1 as [Hk Hv].
+  apply wf_app'; [|now apply IH]. unfold enc_entry. cbn [fst snd].
+  apply wf_app'; now apply wf_enc_string.
+Qed.
+
+Lemma wf_u8 z : wf [u8 z].
+Proof. constructor; [apply u8_lt|constructor]. Qed.
+
+Lemma wf_enc_fval v : fval_wf v = true -> wf (enc_fval v).
+Proof.
+  destruct v as [s|x|l]; cbn [fval_wf enc_fval]; intros H.
+  - now apply wf_enc_string.
+  - cbn [enc]. apply be_wf.
+  - unfold enc_strmap. cbn [enc]. apply wf_app'; [|now apply wf_enc_entries].
+    apply wf_app'; [|apply be_wf]. constructor; [apply u8_lt|apply wf_u8].
+Qed.
+
+Lemma wf_enc_ritem (EW : ENC_wf_statement) sch it : ritem_ok sch it = true -> wf (enc_ritem it).
+Proof.
+  destruct it as [id v|t id v]; cbn [ritem_ok enc_ritem]; intros H.
+  - apply andb_prop in H as [H H3]. cbn [enc]. apply wf_app'; [|now apply wf_enc_fval].
+    apply wf_app'; [apply wf_u8|apply be_wf].
   - apply andb_prop in H as [H H4]. apply andb_prop in H as [H H3]. apply andb_prop in H as [H1 H2].
+    pose proof (wt_type t v H1) as Ht.
+    constructor; [unfold wfb; lia|]. apply wf_app'; [apply be_wf|exact (EW v t H1)].
+Qed.
+
+Lemma wf_enc_ritems (EW : ENC_wf_statement) sch its rest :
+  forallb (ritem_ok sch) its = true -> wf rest -> wf (enc_ritems its ++ rest).
+Proof.
+  intros H Hr. unfold enc_ritems. induction its as [|it its IH]; cbn [forallb map concat] in *.
+  - cbn [enc app]. constructor; [unfold wfb; lia|exact Hr].
+  - apply andb_prop in H as [H1 H2]. rewrite <- !app_assoc. apply wf_app'; [exact (wf_enc_ritem EW sch it H1)|].
+    rewrite app_assoc. now apply IH.
+Qed.
+
+Lemma ritems_ok_good (SK : SK_exact_statement) (EW : ENC_wf_statement) sch its rest :
+  forallb (ritem_ok sch) its = true -> wf rest -> items_good sch its rest.
+Proof.
+  intros H Hr. induction its as [|it its IH]; cbn [forallb items_good] in *; [exact I|].
+  apply andb_prop in H as [H1 H2]. split; [|now apply IH].
+  destruct it as [id v|t id v]; cbn [ritem_ok item_good] in *.
+  - apply andb_prop in H1 as [H1 _]. apply andb_prop in H1 as [Ha Hb]. now split.
+  - apply andb_prop in H1 as [H1 H4]. apply andb_prop in H1 as [H1 H3]. apply andb_prop in H1 as [Hw Hc].
     split; [now apply (wt_type t v)|]. split; [now apply N.ltb_lt|].
     split; [now apply negb_true_iff in H4|].
-    intros rest. apply SK; [exact H1|]. apply Nat.leb_le in H2. exact H2.
+    apply SK; [exact Hw|now apply Nat.leb_le in Hc|]. now apply (wf_enc_ritems EW sch).
+Qed.
+
+(* a list of known fields only needs nothing of Skip *)
+Definition known_good (sch : schema) (it : ritem) : Prop :=
+  match it with
+  | Known id v => in_schema sch id (fty v) = true /\ fval_ok v = true
+  | Unknown _ _ _ => False
+  end.
+Lemma known_items_good sch its rest : Forall (known_good sch) its -> items_good sch its rest.
+Proof.
+  induction 1 as [|it its H _ IH]; cbn [items_good]; [exact I|]. split; [|exact IH].
+  destruct it; cbn [known_good item_good] in *; [exact H|contradiction].
 Qed.
 
 Lemma forallb_Forall {X} (f : X -> bool) (P : X -> Prop) l :
@@ -281,7 +352,7 @@ Qed.
 
 (* ---------- read_any_order_unknowns ---------- *)
 Lemma base_read_items its rest p :
-  Forall (item_good base_schema) its ->
+  items_good base_schema its rest ->
   base_read (Some p) (enc_ritems its ++ rest) = Ok (Some (apply_items base_apply p its), len (enc_ritems its)).
 Proof.
   intros H. unfold base_read.
@@ -290,7 +361,7 @@ Proof.
 Qed.
 
 Lemma baseresp_read_items its rest p :
-  Forall (item_good baseresp_schema) its ->
+  items_good baseresp_schema its rest ->
   baseresp_read (Some p) (enc_ritems its ++ rest) = Ok (Some (apply_items baseresp_apply p its), len (enc_ritems its)).
 Proof.
   intros H. unfold baseresp_read.
@@ -299,7 +370,7 @@ Proof.
 Qed.
 
 Lemma appex_read_items its rest e :
-  Forall (item_good appex_schema) its ->
+  items_good appex_schema its rest ->
   appex_read (Some e) (enc_ritems its ++ rest) =
   Ok (Some (xrec (apply_items appex_apply (xpair e) its)), len (enc_ritems its)).
 Proof.
@@ -308,21 +379,21 @@ Proof.
                     appex_disp_known appex_disp_unknown its rest e H).
 Qed.
 
-Lemma base_read_any_order_unknowns (SK : SK_exact_statement) p its rest :
-  forallb (ritem_ok base_schema) its = true ->
+Lemma base_read_any_order_unknowns (SK : SK_exact_statement) (EW : ENC_wf_statement) p its rest :
+  forallb (ritem_ok base_schema) its = true -> wf rest ->
   base_read (Some p) (enc_ritems its ++ rest) = Ok (Some (apply_items base_apply p its), len (enc_ritems its)).
-Proof. intros H. apply base_read_items. exact (forallb_Forall _ _ _ (ritem_ok_good base_schema SK) H). Qed.
+Proof. intros H Hr. apply base_read_items. now apply ritems_ok_good. Qed.
 
-Lemma baseresp_read_any_order_unknowns (SK : SK_exact_statement) p its rest :
-  forallb (ritem_ok baseresp_schema) its = true ->
+Lemma baseresp_read_any_order_unknowns (SK : SK_exact_statement) (EW : ENC_wf_statement) p its rest :
+  forallb (ritem_ok baseresp_schema) its = true -> wf rest ->
   baseresp_read (Some p) (enc_ritems its ++ rest) = Ok (Some (apply_items baseresp_apply p its), len (enc_ritems its)).
-Proof. intros H. apply baseresp_read_items. exact (forallb_Forall _ _ _ (ritem_ok_good baseresp_schema SK) H). Qed.
+Proof. intros H Hr. apply baseresp_read_items. now apply ritems_ok_good. Qed.
 
-Lemma appex_read_any_order_unknowns (SK : SK_exact_statement) e its rest :
-  forallb (ritem_ok appex_schema) its = true ->
+Lemma appex_read_any_order_unknowns (SK : SK_exact_statement) (EW : ENC_wf_statement) e its rest :
+  forallb (ritem_ok appex_schema) its = true -> wf rest ->
   appex_read (Some e) (enc_ritems its ++ rest) =
   Ok (Some (xrec (apply_items appex_apply (xpair e) its)), len (enc_ritems its)).
-Proof. intros H. apply appex_read_items. exact (forallb_Forall _ _ _ (ritem_ok_good appex_schema SK) H). Qed.
+Proof. intros H Hr. apply appex_read_items. now apply ritems_ok_good. Qed.
 
 (* ---------- each known field = its last occurrence, untouched if none ---------- *)
 Lemma last_known_some kid kty its : forall a, exists v, last_known kid kty its (Some a) = Some v.
@@ -459,17 +530,17 @@ Proof.
 Qed.
 
 Lemma map_items_good sch id m :
-  in_schema sch id F_MAP = true -> smap_ok m -> Forall (item_good sch) (map_items id m).
+  in_schema sch id F_MAP = true -> smap_ok m -> Forall (known_good sch) (map_items id m).
 Proof.
   intros Hs Hm. destruct m as [l|]; cbn [map_items]; constructor; [|constructor].
-  destruct Hm as (H1 & H2 & _). cbn [item_good fty fval_ok]. split; [exact Hs|].
+  destruct Hm as (H1 & H2 & _). cbn [known_good fty fval_ok]. split; [exact Hs|].
   apply andb_true_intro. split; [now apply N.ltb_lt|exact H2].
 Qed.
 
-Lemma str_good sch id s : in_schema sch id F_STRING = true -> len s < two31 -> item_good sch (Known id (FStr s)).
-Proof. intros Hs H. cbn [item_good fty fval_ok]. split; [exact Hs|now apply N.ltb_lt]. Qed.
-Lemma i32_good sch id v : in_schema sch id F_I32 = true -> in_signed 32 v -> item_good sch (Known id (FI32 v)).
-Proof. intros Hs H. cbn [item_good fty fval_ok]. split; [exact Hs|now apply in_signedb_spec]. Qed.
+Lemma str_good sch id s : in_schema sch id F_STRING = true -> len s < two31 -> known_good sch (Known id (FStr s)).
+Proof. intros Hs H. cbn [known_good fty fval_ok]. split; [exact Hs|now apply N.ltb_lt]. Qed.
+Lemma i32_good sch id v : in_schema sch id F_I32 = true -> in_signed 32 v -> known_good sch (Known id (FI32 v)).
+Proof. intros Hs H. cbn [known_good fty fval_ok]. split; [exact Hs|now apply in_signedb_spec]. Qed.
 
 (* reading a struct's stream into any receiver: every field of the receiver is replaced, except an
    absent optional map, which leaves the receiver's map alone (a fresh receiver has none) *)
@@ -485,7 +556,7 @@ Proof.
     destruct (b_extra p) as [l|]; cbn [app fold_left base_apply Z.eqb Pos.eqb b_logid b_caller b_addr b_extra].
     + destruct H4 as (_ & _ & H6). now rewrite map_of_entries_nodup.
     + reflexivity.
-  - unfold base_items. repeat (apply Forall_cons; [apply str_good; [reflexivity|assumption]|]).
+  - apply known_items_good. unfold base_items. repeat (apply Forall_cons; [apply str_good; [reflexivity|assumption]|]).
     apply map_items_good; [reflexivity|exact H4].
 Qed.
 
@@ -501,7 +572,7 @@ Proof.
     destruct (r_extra p) as [l|]; cbn [app fold_left baseresp_apply Z.eqb Pos.eqb r_msg r_code r_extra].
     + destruct H4 as (_ & _ & H6). now rewrite map_of_entries_nodup.
     + reflexivity.
-  - unfold baseresp_items. apply Forall_cons; [apply str_good; [reflexivity|assumption]|].
+  - apply known_items_good. unfold baseresp_items. apply Forall_cons; [apply str_good; [reflexivity|assumption]|].
     apply Forall_cons; [apply i32_good; [reflexivity|assumption]|].
     apply map_items_good; [reflexivity|exact H4].
 Qed.
@@ -514,7 +585,7 @@ Proof.
   intros (H1 & H2). rewrite <- appex_items_stream.
   rewrite appex_read_items.
   - f_equal. f_equal. f_equal. destruct e; reflexivity.
-  - unfold appex_items. apply Forall_cons; [apply str_good; [reflexivity|assumption]|].
+  - apply known_items_good. unfold appex_items. apply Forall_cons; [apply str_good; [reflexivity|assumption]|].
     apply Forall_cons; [apply i32_good; [reflexivity|assumption]|]. constructor.
 Qed.
 
@@ -704,6 +775,13 @@ Proof.
   unfold rbound. cbn [fst snd]. split; [exact G2|eauto].
 Qed.
 
+Lemma wf_drop n b : wf b -> wf (drop n b).
+Proof.
+  unfold drop, wf. generalize (N.to_nat n) as k. intros k. revert b.
+  induction k as [|k IH]; intros b H; cbn [skipn]; [exact H|].
+  destruct b as [|x b]; [constructor|]. apply IH. now inversion H.
+Qed.
+
 Section Safety.
   Hypothesis SKS : SK_safe_statement.
   Hypothesis SKB : SK_bounded_statement.
@@ -711,18 +789,19 @@ Section Safety.
   Variables (lb ls : Z) (disp : Z -> Z -> option (reader A)).
   Hypothesis disp_ok : forall fid ftyp rd, disp fid ftyp = Some rd -> reader_ok rd.
 
-  Lemma rd_skip_good b off t : off <= len b -> good (fun off' => off' <= len b) (rd_skip ls b off t).
+  Lemma rd_skip_good b off t : wf b -> off <= len b -> good (fun off' => off' <= len b) (rd_skip ls b off t).
   Proof.
-    intros H. unfold rd_skip. rewrite slice_ok by exact H. cbn [bind]. unfold skipf.
-    pose proof (SKS (drop off b) (u8 t)) as S1. pose proof (SKB (drop off b) (u8 t)) as S2.
+    intros Hw H. unfold rd_skip. rewrite slice_ok by exact H. cbn [bind]. unfold skipf.
+    pose proof (SKS (drop off b) (u8 t) (wf_drop off b Hw) (u8_lt t)) as S1.
+    pose proof (SKB (drop off b) (u8 t)) as S2.
     destruct (binary_skip (drop off b) (u8 t)) as [n| | |]; cbn [good relabel bind safe] in *; try exact I; try contradiction.
-    specialize (S2 n eq_refl). rewrite len_drop in S2. lia.
+    specialize (S2 n (wf_drop off b Hw) (u8_lt t) eq_refl). rewrite len_drop in S2. lia.
   Qed.
 
-  Lemma read_loop_good b : forall fuel off (p : A),
+  Lemma read_loop_good b : wf b -> forall fuel off (p : A),
     off <= len b -> good (rbound b) (read_loop lb ls disp fuel b off (Some p)).
   Proof.
-    induction fuel as [|f IH]; intros off p H; cbn [read_loop]; [exact I|].
+    intros Hw. induction fuel as [|f IH]; intros off p H; cbn [read_loop]; [exact I|].
     unfold rd_field_begin. rewrite slice_ok by exact H. cbn [bind].
     pose proof (r_field_begin_good (drop off b)) as G.
     destruct (r_field_begin (drop off b)) as [[[ftyp fid] l]| | |]; cbn [good relabel bind snd] in *; try exact G.
@@ -732,7 +811,7 @@ Section Safety.
     - pose proof (disp_ok _ _ _ D b (off + l) p ltac:(lia)) as G1.
       destruct (rd b (off + l) (Some p)) as [[p' off']| | |]; cbn [good bind] in *; try exact G1.
       unfold rbound in G1. cbn [fst snd] in G1. destruct G1 as [G1 [q ->]]. now apply IH.
-    - pose proof (rd_skip_good b (off + l) ftyp ltac:(lia)) as G1.
+    - pose proof (rd_skip_good b (off + l) ftyp Hw ltac:(lia)) as G1.
       destruct (rd_skip ls b (off + l) ftyp) as [off'| | |]; cbn [good bind] in *; try exact G1.
       now apply IH.
   Qed.
@@ -771,35 +850,35 @@ Section Entry.
   Hypothesis SKS : SK_safe_statement.
   Hypothesis SKB : SK_bounded_statement.
 
-  Lemma fastread_base_good b : good (fun x => snd x <= len b) (fastread_base b).
+  Lemma fastread_base_good b : wf b -> good (fun x => snd x <= len b) (fastread_base b).
   Proof.
-    apply unsome_good. unfold base_read.
-    apply (read_loop_good SKS SKB lbl_begin lbl_skip base_disp base_disp_ok). lia.
+    intros Hw. apply unsome_good. unfold base_read.
+    apply (read_loop_good SKS SKB lbl_begin lbl_skip base_disp base_disp_ok b Hw). lia.
   Qed.
-  Lemma fastread_baseresp_good b : good (fun x => snd x <= len b) (fastread_baseresp b).
+  Lemma fastread_baseresp_good b : wf b -> good (fun x => snd x <= len b) (fastread_baseresp b).
   Proof.
-    apply unsome_good. unfold baseresp_read.
-    apply (read_loop_good SKS SKB lbl_begin lbl_skip baseresp_disp baseresp_disp_ok). lia.
+    intros Hw. apply unsome_good. unfold baseresp_read.
+    apply (read_loop_good SKS SKB lbl_begin lbl_skip baseresp_disp baseresp_disp_ok b Hw). lia.
   Qed.
-  Lemma fastread_appex_good b : good (fun x => snd x <= len b) (fastread_appex b).
+  Lemma fastread_appex_good b : wf b -> good (fun x => snd x <= len b) (fastread_appex b).
   Proof.
-    apply unsome_good. unfold appex_read.
-    apply (read_loop_good SKS SKB 0%Z 0%Z appex_disp appex_disp_ok). lia.
+    intros Hw. apply unsome_good. unfold appex_read.
+    apply (read_loop_good SKS SKB 0%Z 0%Z appex_disp appex_disp_ok b Hw). lia.
   Qed.
 
-  Lemma fastread_base_total b : safe (fastread_base b).
-  Proof. exact (good_safe _ _ (fastread_base_good b)). Qed.
-  Lemma fastread_baseresp_total b : safe (fastread_baseresp b).
-  Proof. exact (good_safe _ _ (fastread_baseresp_good b)). Qed.
-  Lemma fastread_appex_total b : safe (fastread_appex b).
-  Proof. exact (good_safe _ _ (fastread_appex_good b)). Qed.
+  Lemma fastread_base_total b : wf b -> safe (fastread_base b).
+  Proof. intros Hw. exact (good_safe _ _ (fastread_base_good b Hw)). Qed.
+  Lemma fastread_baseresp_total b : wf b -> safe (fastread_baseresp b).
+  Proof. intros Hw. exact (good_safe _ _ (fastread_baseresp_good b Hw)). Qed.
+  Lemma fastread_appex_total b : wf b -> safe (fastread_appex b).
+  Proof. intros Hw. exact (good_safe _ _ (fastread_appex_good b Hw)). Qed.
 
-  Lemma fastread_base_bounded b p n : fastread_base b = Ok (p, n) -> n <= len b.
-  Proof. intros E. pose proof (fastread_base_good b) as G. rewrite E in G. exact G. Qed.
-  Lemma fastread_baseresp_bounded b p n : fastread_baseresp b = Ok (p, n) -> n <= len b.
-  Proof. intros E. pose proof (fastread_baseresp_good b) as G. rewrite E in G. exact G. Qed.
-  Lemma fastread_appex_bounded b p n : fastread_appex b = Ok (p, n) -> n <= len b.
-  Proof. intros E. pose proof (fastread_appex_good b) as G. rewrite E in G. exact G. Qed.
+  Lemma fastread_base_bounded b p n : wf b -> fastread_base b = Ok (p, n) -> n <= len b.
+  Proof. intros Hw E. pose proof (fastread_base_good b Hw) as G. rewrite E in G. exact G. Qed.
+  Lemma fastread_baseresp_bounded b p n : wf b -> fastread_baseresp b = Ok (p, n) -> n <= len b.
+  Proof. intros Hw E. pose proof (fastread_baseresp_good b Hw) as G. rewrite E in G. exact G. Qed.
+  Lemma fastread_appex_bounded b p n : wf b -> fastread_appex b = Ok (p, n) -> n <= len b.
+  Proof. intros Hw E. pose proof (fastread_appex_good b Hw) as G. rewrite E in G. exact G. Qed.
 End Entry.
 
 (* ---------- write side, assembled ---------- *)
